@@ -62,10 +62,10 @@ Qed.
 (* each flag repairs its own defect only: with just the other flag on, the witness still fails *)
 Definition rv_only_replace : revision :=
   {| fix_rollback_replace := true; fix_alias_steal_undo := false; fix_alias_nodes_only := false;
-     fix_strict_order := false; fix_slice_clamp := false; fix_edge_origin := false; fix_visited_chain := false |}.
+     fix_strict_order := false; fix_slice_clamp := false; fix_edge_origin := false; fix_visited_chain := false; fix_nodes_ids_alias := false |}.
 Definition rv_only_steal : revision :=
   {| fix_rollback_replace := false; fix_alias_steal_undo := true; fix_alias_nodes_only := false;
-     fix_strict_order := false; fix_slice_clamp := false; fix_edge_origin := false; fix_visited_chain := false |}.
+     fix_strict_order := false; fix_slice_clamp := false; fix_edge_origin := false; fix_visited_chain := false; fix_nodes_ids_alias := false |}.
 
 Lemma flags_independent :
   obs_eq (w1_init rv_only_replace) (fst (transaction rv_only_replace (w1_init rv_only_replace) w1_txn true)) /\
@@ -89,4 +89,33 @@ Lemma fixed_restores_failing_query :
 Proof.
   cbv zeta. vm_compute exec. split; [reflexivity|]. split; [|reflexivity].
   apply obs_eqb_sound; vm_compute; reflexivity.
+Qed.
+
+(* (iii) third defect (found while proving C13, repaired by fix: 883e1ef): `insert nodes` with
+   ids AND aliases called insert_new_alias on an existing node, which silently drops the node's
+   previous alias and steals the new one from its holder without recording an inverse.
+   rv_no_ids_alias = every other fix on, this one off. *)
+Definition rv_no_ids_alias : revision :=
+  {| fix_rollback_replace := true; fix_alias_steal_undo := true; fix_alias_nodes_only := true;
+     fix_strict_order := true; fix_slice_clamp := true; fix_edge_origin := true; fix_visited_chain := true;
+     fix_nodes_ids_alias := false |}.
+Definition w3_txn : list query := [InsertNodes 0 (Single []) [w_a] (Ids [QId 2])].
+
+Lemma nodes_ids_alias_refuted :
+  let d := w2_init rv_no_ids_alias in
+  let d' := fst (transaction rv_no_ids_alias d w3_txn true) in
+  ~ obs_eq d d' /\
+  imap_key (aliases d) 1 = Some w_a /\ imap_key (aliases d) 2 = Some w_b /\
+  imap_key (aliases d') 1 = None /\ imap_key (aliases d') 2 = None.
+Proof.
+  cbv zeta. split; [|vm_compute; auto].
+  intros [_ _ Ha _ _]. specialize (Ha w_a). vm_compute in Ha. discriminate.
+Qed.
+
+Lemma fixed_restores_nodes_ids_alias :
+  let d := w2_init rv_fixed in
+  let d' := fst (transaction rv_fixed d w3_txn true) in
+  obs_eq d d' /\ undo d' = [].
+Proof.
+  cbv zeta. split; [apply obs_eqb_sound; vm_compute; reflexivity | vm_compute; auto].
 Qed.
